@@ -284,7 +284,7 @@ impl Monitor for C13 {
         for i in 0..n {
             if i == migrate_at {
                 // upgrade path: the token was deployed by an older release and is migrated now
-                let v = *h.rng.pick(&["0.13.4", "0.9.1", "0.13.0", "0.2.3", "1.1.2", "2.0.0", "0.7.0", "0.10.3", "0.1.0", "0.14.0", "0.16.0"]);
+                let v = *h.rng.pick(&["0.13.4", "0.9.1", "0.13.0", "0.2.3", "1.1.2", "2.0.0", "0.7.0", "0.10.3", "0.1.0", "0.14.0", "0.16.0", "0.12.0-alpha1", "0.10.0-soon4", "0.13.0-rc.2"]);
                 cw2::set_contract_version(&mut c.w.store, "crates.io:cw20-base", v).unwrap();
                 let r = c.w.tx(|deps, env| cw20_base::contract::migrate(deps, env, cw20_base::msg::MigrateMsg {}));
                 h.out.evaluations += 1;
